@@ -5,15 +5,11 @@ open Drv_msg
 
 let is_view_type = function TScalar _ -> false | _ -> true
 
-let rec clevel_of (sl : slevel) (hdr : z) : clevel =
-  let SLevel (sfs, sgs, _) = sl in
-  let nc = List.filter (fun f -> not f.sf_const) sfs in
-  let cfl = (match cursor_fields sfs hdr Z0 with Some l -> l | None -> failwith "cursor_fields") in
-  let accs = List.map2 (fun c f -> cacc_of c (is_view_type f.sf_type)) cfl nc in
-  let rec gs = function
-    | SGNil -> CGNil
-    | SGCons (_, _, sub, rest) -> CGCons (clevel_of sub Z0, gs rest) in
-  CLevel (accs, gs sgs)
+(* the cursor accessor table is computed by the Coq function Compile.compile_clevel *)
+let clevel_of (sl : slevel) (hdr : z) : clevel =
+  match compile_clevel sl hdr with
+  | Some cl -> cl
+  | None -> failwith "compile_clevel"
 
 let rel z = string_of_z (Z.sub z !cur_base)
 
